@@ -4,6 +4,11 @@ BOOL_SETTINGS = ('parse_qq', 'clean_qq', 'suppress_lot_divs',
                  'sec_colon_required', 'sec_colon_cautious', 'ocr_scrub',
                  'segment', 'break_halves', 'sec_within')
 # wait_to_parse is handled separately (it changes which call parses).
+ALL_SETTINGS = ('default_ns', 'default_ew', 'layout', 'wait_to_parse',
+                'parse_qq', 'clean_qq', 'sec_colon_required',
+                'sec_colon_cautious', 'suppress_lot_divs', 'ocr_scrub',
+                'segment', 'qq_depth', 'qq_depth_min', 'qq_depth_max',
+                'break_halves', 'sec_within')
 LAYOUTS = ('TRS_desc', 'desc_STR', 'S_desc_TR', 'TR_desc_S', 'copy_all')
 TRACT_SETTINGS = ('default_ns', 'default_ew', 'parse_qq', 'clean_qq',
                   'suppress_lot_divs', 'ocr_scrub', 'qq_depth',
